@@ -50,6 +50,17 @@ theorem codec_facts :
     F.unmarshalFields = ["ModEpochNanos<-ModEpochNanos", "PreviousRoot<-PreviousRoot", "TombstoneSinceEpochNanos<-TombstoneSinceEpochNanos", "Value<-Value"] := by
   decide
 
+/-- **every object a version refers to exists**: the flush precedes the version PUT and both are
+    error-checked (`C04.nodes_before_root` is the theorem over these facts); and a commit that
+    fails keeps the snapshot taken at BEGIN, which the ROLLBACK that follows restores — otherwise
+    the in-memory tree keeps nodes that were marked stored although their PUT failed, and the
+    next acknowledged version links to objects that do not exist -/
+theorem complete_version_facts :
+    F.commitOrder = ["flushNodes", "putRoot", "retireParents"] ∧ F.commitChecksErrors = true ∧
+    F.commitKeepsSnapshotOnError = true ∧ F.rollbackRestoresSnapshot = true ∧ F.beginClonesTree = true ∧
+    F.nameIsHashOfStoredBytes = true := by
+  decide
+
 /-- the defect the F1 fix removed, on the model: copying the empty string back as a link makes a
     leaf's absent child the link `""`, which the tree then tries to load -/
 theorem old_unmarshal_breaks_absent_links :
